@@ -24,4 +24,16 @@ PROPS = {
         quick=dict(shards=16, checks=1500, extra=["TestQuota", "TestExhaustive"], timeout=600),
         thorough=dict(shards=16, checks=40000, extra=["TestQuota", "TestExhaustive"], timeout=3000),
     ),
+    "C02": dict(
+        pkg="c02",
+        technique="property-based round-trip testing (rapid) over images x precision x predictor, plus exhaustive enumeration of tiny images and of all 65536 difference values",
+        level_text="Exploration: seeded rapid generators over geometry classes, precision 2..16, selectors 0..7 and SV1, content classes aimed at extreme differences (two-level, alternating extremes, category-16 values); exhaustive sub-domains for tiny images and for the difference coder.",
+        level_note="Round trip through the library's own encoder and decoder only (conformance is C13); trusts the Go runtime.",
+        rule=("rapid-generated (image, selector) pairs; image = geometry class x components {1,3} x P 2..16 x content class (noise, twolevel, "
+              "altext, cat16, extremes, runs, ...), small images drawn sample by sample. Non-trivial: >= 2 distinct sample values and "
+              "width*height >= 2. Distinct = 64-bit hash of the case descriptor. Labels dht-cat16 / dht-len16 / stuffed are read from the emitted stream."),
+        assumptions=COMMON_ASSUME,
+        quick=dict(shards=16, checks=1500, extra=["TestQuota", "TestExhaustiveDiff", dict(run="TestExhaustive", shards=4)], timeout=600),
+        thorough=dict(shards=16, checks=25000, extra=["TestQuota", "TestExhaustiveDiff", dict(run="TestExhaustive", shards=16)], timeout=3000),
+    ),
 }
